@@ -209,17 +209,28 @@ def res_cli(run, case, rng, work):
     name_class = ["plain", "plain", "plain", "plain", "brackets", "odd"][rng.integers(6)]
     holes_in = int(rng.integers(n)) if rng.random() < .15 else -1
     collide = bool(rng.random() < .12)
+    all_real = bool(rng.random() < .15) and not zero_keys and not collide  # every input comes from a real run (all carry timestamps)
+    if all_real:
+        n = min(n, 3)
     for i in range(n):
-        if rng.random() < .25 and not zero_keys and not collide:
+        if (all_real or rng.random() < .25) and not zero_keys and not collide:
             # a real evo_ape archive
             sub = os.path.join(work, "run%d" % i)
             os.makedirs(sub)
-            rec = C01.ape_cli(C01.NullRun(run.tier), dict(case, fmt="tum"), rng, sub)
+            if rng.random() < .5:
+                rec = C01.ape_cli(C01.NullRun(run.tier), dict(case, fmt="tum"), rng, sub)
+            else:
+                # ... or a real evo_rpe archive, all-pairs mode with a metre / angle delta included
+                # (several values may belong to pairs ending at the same pose)
+                from vmon.props import C02
+                rec = C02.rpe_cli(C01.NullRun(run.tier), dict(case, fmt="tum", force_all_pairs=bool(rng.random() < .7),
+                                                              force_unit="mdrf"[rng.integers(4)], force_tol=[0.1, 0.3][rng.integers(2)]), rng, sub)
             path = os.path.join(sub, "out.zip")
-            if rec is None or not os.path.exists(path):
-                continue
+            if not os.path.exists(path):
+                continue  # (refused run: no archive; an archive is used whatever its producer's own check says)
             newp = os.path.join(work, "real%d.zip" % i)
             os.replace(path, newp)
+            run.hit("evo_res inputs produced by real evo_ape / evo_rpe runs")
             # make est names unique across real runs: they are all 'est.txt'
             z = C01.read_result_zip(newp)
             files.append(newp)
